@@ -551,6 +551,9 @@ class FnTr:
                 if isinstance(nd, ast.Call):
                     ok = isinstance(nd.func, ast.Attribute) and nd.func.attr == "format" and \
                         isinstance(nd.func.value, ast.Constant)
+                if isinstance(nd, ast.Subscript):            # `x.shape[0]` of a parameter cannot raise
+                    ok = isinstance(nd.value, ast.Attribute) and nd.value.attr == "shape" and \
+                        isinstance(nd.value.value, ast.Name) and isinstance(nd.slice, ast.Constant) and nd.slice.value == 0
                 if not ok:
                     raise Unsupported("exception message that is not built from literals and pure values", s)
         return ["throw PyErr.%s" % EXC[x.func.id]]
